@@ -172,8 +172,8 @@ def check(col, prog, tier, profile, fixture=None):
                 # single call: either the near child hit (Some) and is returned, or the near child was skipped
                 e = first
                 if order[0] == near:
-                    hit = any(f[0] == "eq" and f[2] == 1 and ("proj", 1, e.res) in list(subterms(f[1])) for f in st.facts)
-                    okr = ret[0] == "agg" and ret[2] == (("proj", 0, e.res), ("proj", 1, e.res))
+                    hit = any(((f[0] == "eq" and f[2] == 1) or (f[0] == "ne" and f[2] == 0 and f[1][0] == "discr")) and ("proj", 1, e.res) in list(subterms(f[1])) for f in st.facts)
+                    okr = ret == e.res or (ret[0] == "agg" and ret[2] == (("proj", 0, e.res), ("proj", 1, e.res)))
                     key = "%s|stop-at-first-hit" % fk(b)
                     if hit and okr:
                         col.ok("B4" + sfx, b.loc(e.bb), key, "near child's Some is returned at once")
